@@ -12,6 +12,8 @@ B  node-kind preservation, for every function that takes an AST enum `&E` and re
    small plan), the call sugar f"s" / f{t} <-> f("s") / f({t}) (C11) and parenthesised types.
 C  number tokens: the rewrite prepends `0` to a leading `.` and nothing else (C04's number kernel, reused)
 D  condition parentheses are removed only at the top of a condition and the inner expression is kept
+E  Luau type parentheses: keep_parentheses against the grammar, and the context marks handed to the children of union / intersection /
+   optional / variadic types on every layout path (type_context)
 """
 import json, re, subprocess, z3
 
@@ -268,6 +270,7 @@ def analyse_structs(ses, rep, fs, sigs):
                     if r == "sat":
                         flagged.append((f"rebuild/{fs}/{f.name}/path{pi}", f"{f.name} rebuilds a block from a single statement without a guard that the block has no other statement",
                                         "rebuild", {"function": f.name, "type": "If"}))
+            flagged += inner_kinds(ses, rep, ex, T, f, o, pi, P, fs, args)
             if is_enum:
                 flagged += check_enum(ses, rep, ex, T, f, rt, node, o, pi, v, P, fs)
                 continue
@@ -365,6 +368,221 @@ def analyse_structs(ses, rep, fs, sigs):
     if n_fn < 40:
         raise Inconclusive(f"only {n_fn} formatter functions recognised for {fs}")
     return flagged
+
+
+KIND_ENUMS = ("Stmt", "LastStmt", "Expression", "Prefix", "Suffix", "Call", "Index", "Var", "Field", "FunctionArgs", "UnOp", "BinOp", "TypeInfo",
+              "IndexedTypeInfo", "TypeFieldKey", "GenericParameterInfo", "CompoundOp", "Parameter", "InterpolatedStringSegment", "LuauAttribute")
+
+
+def inner_kinds(ses, rep, ex, T, f, o, pi, P, fs, args):
+    """B for nodes rebuilt INSIDE a function: an AST enum value constructed on the path and carried by the result, whose payload is taken
+    from variant W of an enum object of the same type, is of variant W (`Variadic { name, .. } => Name(name)` drops the `...`)."""
+    flagged = []
+    if PAREN_FUNCS.match(f.name):
+        return flagged
+    st = o.state
+    byoid = {}
+    for a in args:
+        a = a.v if isinstance(a, RefV) else a
+        if isinstance(a, Lazy):
+            byoid[a.oid] = a
+    for (_, _k), ch in ex.lazy_tab.items():
+        if isinstance(ch, Lazy):
+            byoid[ch.oid] = ch
+    for hv in ex.havoc_memo.values():
+        if isinstance(hv, Lazy):
+            byoid[hv.oid] = hv
+    for t in o.trace:
+        if t[0] == "havoc" and isinstance(t[3], Lazy):
+            byoid[t[3].oid] = t[3]
+    found, seen = [], set()
+
+    def walk(v, depth=0):
+        if depth > 30 or v is None:
+            return
+        if isinstance(v, Ref):
+            try:
+                walk(ex._read_key(st, v.key, v.path), depth + 1)
+            except Exception:
+                pass
+            return
+        if isinstance(v, RefV):
+            return walk(v.v, depth + 1)
+        if isinstance(v, Agg):
+            if id(v) in seen:
+                return
+            seen.add(id(v))
+            if v.variant and v.ty and last_seg(v.ty) in KIND_ENUMS:
+                found.append(v)
+            for x in v.fields:
+                walk(x, depth + 1)
+            return
+        if isinstance(v, Lazy):
+            if v.oid in seen:
+                return
+            seen.add(v.oid)
+            for a in P.mutobj.get(v.oid, []):
+                walk(a, depth + 1)
+            root = v.oid
+            while root in ex.parent:
+                root = ex.parent[root][0]
+            if root in ex.havoc_calls:
+                for a in ex.havoc_snap.get(root, ex.havoc_calls[root][1]):
+                    walk(a, depth + 1)
+    walk(o.value)
+    for k, A in enumerate(found):
+        E = last_seg(A.ty)
+        src = {}
+        for x in A.fields:
+            for c in P.direct(x):
+                par = ex.parent.get(c)
+                if par and par[1][0] == "vfield" and par[0] in byoid and last_seg(byoid[par[0]].ty) == E:
+                    src.setdefault(par[0], set()).add(par[1][1])
+        for L, ws in sorted(src.items()):
+            if A.variant in ws or any((f.name, w, A.variant) in ENUM_EXCEPTIONS for w in ws):
+                continue
+            w = sorted(ws)[0]
+            oid = f"kind/{fs}/{f.name}/path{pi}/inner-{E}-{w}-rebuilt-as-{A.variant}"
+            r, m = ses.obligation(oid, list(o.pc), z3.BoolVal(True), "an enum node rebuilt from the payload of variant W is of variant W")
+            if r == "sat":
+                flagged.append((oid, f"{f.name} rebuilds a {E}::{w} as a {E}::{A.variant}", "kind", {"function": f.name, "type": E, "from": w, "to": A.variant}))
+    return flagged
+
+
+# Luau type grammar: which marks the children of a type node must be formatted under (parentheses around a child are dropped unless
+# keep_parentheses sees the mark), and when parentheses around a type of a given kind are needed
+CHILD_MARK = {"Union": "contains_union", "Intersection": "contains_intersect", "Optional": "within_optional", "Variadic": "within_variadic"}
+NEEDS_PARENS = {"Callback": ("within_optional", "within_variadic", "contains_union", "contains_intersect"),
+                "Union": ("within_optional", "within_variadic", "contains_intersect"),
+                "Optional": ("within_optional", "within_variadic", "contains_intersect"),
+                "Intersection": ("within_optional", "within_variadic", "contains_union")}
+
+
+def type_context(ses, rep, fs="full"):
+    """E  Luau type parentheses. (1) keep_parentheses returns true whenever the grammar needs the parentheses (NEEDS_PARENS; under
+    within_generic always: a parenthesised list there is a type pack). (2) every in-crate type formatter that receives a TypeInfoContext
+    passes, for the children of a Union / Intersection / Optional / Variadic node, a context with the corresponding mark set - on every
+    layout path (single line and hanging), helpers that take a context inlined."""
+    flagged = []
+    funcs = ses.mir("lib", fs)
+    T = ses.enums(fs)
+    fields = [f_[0] for f_ in (T.structs.get("TypeInfoContext") or [])]
+    if not fields:
+        raise Inconclusive("TypeInfoContext not found")
+    has_ctx = lambda fn: any("TypeInfoContext" in t for _, t in fn.params) or (fn.ret and "TypeInfoContext" in fn.ret)
+    main = [f for l in funcs.values() for f in l if any(last_seg(t) == "TypeInfoContext" for _, t in f.params)
+            and any(t.startswith("&") and last_seg(t) == "TypeInfo" for _, t in f.params) and f.ret and last_seg(f.ret) == "TypeInfo"]
+    main_names = {f.name for f in main}
+    vs = [v[0] for v in T.variants("TypeInfo")]
+
+    def flag_of(ex, st, cv, name):
+        cv = deref_val(ex, st, cv)
+        i = fields.index(name)
+        if isinstance(cv, Agg):
+            x = cv.fields[cv.names.index(name)] if cv.names and name in cv.names else cv.fields[i]
+            x = deref_val(ex, st, x)
+            return x.t if isinstance(x, Sym) else None
+        if isinstance(cv, Lazy):
+            x = ex.lazy_tab.get((cv.oid, ("field", i)))
+            return x.t if isinstance(x, Sym) else z3.Bool(f"ctx{cv.oid}.{name}")
+        return None
+    # (1)
+    kp = [f for l in funcs.values() for f in l if f.name == "keep_parentheses"]
+    if not kp:
+        raise Inconclusive("keep_parentheses not found")
+    ex = ses.executor("lib", fs, inline=lambda n, fn: False)
+    args = lazy_args(ex, kp[0])
+    outs = ex.run(kp[0], args)
+    rep.fn(kp[0])
+    ty = next(a.v if isinstance(a, RefV) else a for a, (p_, t_) in zip(args, kp[0].params) if last_seg(t_) == "TypeInfo")
+    cx = next(a for a, (p_, t_) in zip(args, kp[0].params) if last_seg(t_) == "TypeInfoContext")
+    d = ex.discr(None, ty)
+    for pi, o in enumerate(outs):
+        if o.kind != "return" or not isinstance(o.value, Sym) or not ses.reachable(list(o.pc) + [z3.Not(o.value.t)]):
+            continue
+        fl = {n_: flag_of(ex, o.state, cx, n_) for n_ in fields}
+        need = z3.Or([z3.And(d == z3.BitVecVal(vs.index(k), 64), z3.Or([fl[m_] for m_ in marks])) for k, marks in NEEDS_PARENS.items() if k in vs]
+                     + [fl["within_generic"]])
+        r, m = ses.obligation(f"type-parens/{fs}/keep_parentheses/path{pi}/true-whenever-needed", list(o.pc) + [z3.Not(o.value.t)], need,
+                              "keep_parentheses is true for a function type under ?/.../|/&, a union under ?/.../&, an intersection under ?/.../|, and in generics")
+        if r == "sat":
+            k = vs[m.eval(d, model_completion=True).as_long()] if m.eval(d, model_completion=True).as_long() < len(vs) else "?"
+            on = [n_ for n_ in fields if z3.is_true(m.eval(fl[n_], model_completion=True))]
+            flagged.append((f"type-parens/{fs}/keep_parentheses/path{pi}", f"keep_parentheses is false for a parenthesised TypeInfo::{k} under {on}", "type-parens",
+                            {"kind": k, "marks": on}))
+    # (2)
+    n_calls = 0
+    for f in sorted(main, key=lambda f_: f_.name):
+        ex = ses.executor("lib", fs, inline=lambda n, fn: has_ctx(fn) and fn.name not in main_names and fn.name != "keep_parentheses" and len(fn.blocks) <= 80)
+        ex.max_block_visits = 2
+        ex.max_paths = 8000
+        try:
+            args = lazy_args(ex, f)
+            outs = ex.run(f, args)
+        except Inconclusive as e:
+            ex = ses.executor("lib", fs, inline=lambda n, fn: has_ctx(fn) and fn.name not in main_names and fn.name != "keep_parentheses" and len(fn.blocks) <= 80)
+            ex.max_block_visits = 1
+            args = lazy_args(ex, f)
+            outs = ex.run(f, args)
+        rep.fn(f)
+        ty = next(a.v if isinstance(a, RefV) else a for a, (p_, t_) in zip(args, f.params) if last_seg(t_) == "TypeInfo")
+        d = ex.discr(None, ty)
+        for pi, o in enumerate(outs):
+            if o.kind not in ("return", "loopbound"):      # a path cut at the loop bound still shows the calls of the loop body
+                continue
+            for k, mark in CHILD_MARK.items():
+                if k not in vs or not ses.reachable(list(o.pc) + [d == z3.BitVecVal(vs.index(k), 64)]) or ses.reachable(list(o.pc) + [d != z3.BitVecVal(vs.index(k), 64)]):
+                    continue
+                for ci, t in enumerate(o.trace):
+                    if t[0] != "havoc" or t[1].split("::")[-1] not in {n_.split("::")[-1] for n_ in main_names}:
+                        continue
+                    g = ex.resolve(t[1])
+                    if g is None or g.name not in main_names:
+                        continue
+                    snap = t[4] if len(t) > 4 else t[2]
+                    ai = next(i for i, (p_, t_) in enumerate(g.params) if last_seg(t_) == "TypeInfoContext")
+                    ti = next(i for i, (p_, t_) in enumerate(g.params) if t_.startswith("&") and last_seg(t_) == "TypeInfo")
+                    if deref_val(ex, o.state, snap[ti]) is ty:
+                        continue          # the node itself handed to another layout of the same node: its context is the caller's
+                    flg = flag_of(ex, o.state, snap[ai], mark)
+                    n_calls += 1
+                    oid = f"type-parens/{fs}/{f.name}/path{pi}/call{ci}-{t[1].split('::')[-1]}-of-{k}-child-has-{mark}"
+                    r, m = ses.obligation(oid, list(o.pc), z3.BoolVal(True) if flg is None else z3.Not(flg), f"children of a {k} are formatted under {mark}")
+                    if r == "sat":
+                        flagged.append((oid, f"{f.name} formats a child of a TypeInfo::{k} through {t[1].split('::')[-1]} without `{mark}` in the context: "
+                                             "parentheses the child needs can be removed", "type-parens", {"kind": k, "marks": [mark], "function": f.name}))
+    if n_calls < 8:
+        raise Inconclusive(f"type-context kernel: only {n_calls} child calls recognised")
+    rep.bounds["type_context_child_calls"] = n_calls
+    return flagged
+
+
+TYPE_PROGRAMS = [
+    "type Listener = nil | ((eventName: string, payload: EventPayload) -> boolean) | ListenerObject\n",
+    "type Handler = ((eventName: string, payload: EventPayload) -> boolean) & ((otherName: number) -> string) & Extra\n",
+    "type Mixed = FirstAlternativeTypeName | (SecondMemberTypeName & ThirdMemberTypeName) | FourthAlternativeTypeName\n",
+    "type Mixed2 = FirstAlternativeTypeName & (SecondMemberTypeName | ThirdMemberTypeName) & FourthAlternativeTypeName\n",
+    "type Opt = ((eventName: string, payload: EventPayload) -> boolean)?\ntype Opt2 = (FirstAlternativeTypeName | SecondMemberTypeName)?\n",
+    "type Var = (...(FirstAlternativeTypeName | SecondMemberTypeName)) -> ()\n",
+    "local callback: nil | ((eventName: string, payload: EventPayload) -> boolean) | ListenerObject = nil\n",
+    "type T = { field: nil | ((eventName: string, payload: EventPayload) -> boolean) | ListenerObject }\n",
+    "type Pack = Callback<(number, string)>\n",
+]
+
+
+def replay_type_parens(info):
+    """every parenthesis of these programs is needed: the parenthesis tokens of the output are those of the input"""
+    binp = common.native_build("full")
+    for src in TYPE_PROGRAMS:
+        for w in (120, 80, 60, 40, 20):
+            r = subprocess.run([binp, "--syntax", "Luau", "--column-width", str(w), "-"], input=src.encode(), capture_output=True, timeout=60)
+            if r.returncode != 0:
+                continue
+            out = r.stdout.decode("utf-8", "replace")
+            par = lambda s_: [c for c in re.sub(r"--[^\n]*", "", s_) if c in "()"]
+            if par(out) != par(src):
+                return f"--column-width {w}: {src.strip()!r} is printed as {out.strip()!r}: needed type parentheses are gone", {"source": src, "flags": ["--syntax", "Luau", "--column-width", str(w)], "output": out}
+    return None, {}
 
 
 def check_enum(ses, rep, ex, T, f, rt, node, o, pi, v, P, fs):
@@ -609,6 +827,18 @@ def run(ses, rep):
     for fs in (("full",) if rep.tier == "quick" else ("full", "default")):
         flagged += analyse_structs(ses, rep, fs, sigs)
         flagged += rebuild_guards(ses, rep, fs)
+    # E: Luau type parentheses
+    tflag = type_context(ses, rep, "full")
+    tseen = None
+    for oid, what, kind, info in tflag:
+        if tseen is None:
+            tseen = replay_type_parens(info)
+        v, rec = tseen
+        if v is None:
+            rep.add(oid, "inconclusive", f"solver model ({what}) did not reproduce on the native build")
+        else:
+            rep.add(oid, rep.violation({"obligation": kind, "kind": info.get("kind"), "function": info.get("function", "keep_parentheses")},
+                                       {"what": what, "observed": v, "replay_kind": "type-parens", **rec}), f"{what}; {v}")
     # C: numbers (C04's kernel)
     try:
         before = len(rep.obligations)
@@ -650,6 +880,14 @@ def run(ses, rep):
 
 
 def replay(path):
+    d = json.load(open(path))
+    if d.get("replay", {}).get("replay_kind") == "type-parens":
+        v, rec = replay_type_parens({})
+        print(v or "type parentheses: kept where needed")
+        if v:
+            print(f"VIOLATION property=C02 replay={path}")
+            return 1
+        return 0
     fails = semantic_battery("full")
     for v, rec in fails[:5]:
         print(v)
